@@ -304,6 +304,7 @@ def run(ctx, prog, res):
     rule_r10(prog, res)
     rule_r11(prog, res)
     rule_r12(ctx, prog, res)
+    rule_r13(prog, res)
 
 
 def _or_roots(f, op, names, depth=0):
@@ -488,7 +489,8 @@ def rule_r12(ctx, prog, res):
     masks = [(T, T)] + [(one(i), F) for i in range(5)] + [(F, one(i)) for i in range(5)] + [(one(0), one(0))]
     wds = range(7) if thorough else (0, 2, 4, 6)
     offsets = (-1, 0, 1, 2) if thorough else (0, 1)
-    days = [(y, m, d) for (y, m) in ((2020, 2), (2021, 2), (2021, 4), (2021, 5)) for d in range(1, peval.days_in_month(y, m) + 1)]
+    months = ((2020, 2), (2021, 2), (2021, 4), (2021, 5), (2100, 2)) + (((1900, 2), (2000, 2), (9999, 12)) if thorough else ())
+    days = [(y, m, d) for (y, m) in months for d in range(1, peval.days_in_month(y, m) + 1)]
     NAMES = ["Mo", "Tu", "We", "Th", "Fr", "Sa", "Su"]
     n = 0
     bad = None
@@ -516,5 +518,55 @@ def rule_r12(ctx, prog, res):
         pos = "" if (a, b) == (T, T) else "[%s]" % ",".join([str(i + 1) for i in range(5) if a[i]] + [str(-(i + 1)) for i in range(5) if b[i]])
         msg = "`%s%s%s%s` on %04d-%02d-%02d (a %s): the filter says %s, the documented reading says %s" % (
             NAMES[s], "" if s == e else "-" + NAMES[e], pos, "" if off == 0 else " %+d day" % off, *date, NAMES[peval.weekday(date)], got, want)
+    # the month length the positions from the end are counted from
+    cdm = [f for k, f in prog.fns.items() if k.endswith("utils::dates::count_days_in_month")]
+    if len(cdm) == 1:
+        wrong = None
+        try:
+            for y in (1900, 1999, 2000, 2023, 2024, 2100, 9999):
+                for m in range(1, 13):
+                    for d in (1, 28):
+                        got = ev.run(cdm[0], [(y, m, d)])
+                        if got != peval.days_in_month(y, m) and wrong is None:
+                            wrong = (y, m, got)
+        except peval.Unmodelled as ex:
+            r12.fail("C01.R12:unmodelled-month-length", "count_days_in_month cannot be evaluated from its MIR any more (%s): not decided, failing closed" % ex, lib.where_of(cdm[0]))
+            wrong = False
+        if wrong is not False:
+            r12.check(wrong is None, {"fn": "count_days_in_month", "months": 84, "years": [1900, 1999, 2000, 2023, 2024, 2100, 9999]}, "C01.R12:month-length",
+                      "" if wrong is None else "count_days_in_month gives %s days to %04d-%02d (Gregorian calendar: %d): positions counted from the end of the month (`Mo[-1]`) are off" % (wrong[2], wrong[0], wrong[1], peval.days_in_month(wrong[0], wrong[1])), lib.where_of(cdm[0]))
+    else:
+        r12.anchor_missing("utils::dates::count_days_in_month")
     r12.check(bad is None, {"ranges": len(list(wds)) ** 2, "offsets": list(offsets), "position_tables": len(masks), "days": len(days), "evaluations": n}, "C01.R12:weekday", msg, lib.where_of(filt))
-    r12.floor(1)
+    r12.floor(2)
+
+
+def rule_r13(prog, res):
+    r13 = res.rule("C01.R13", "dated ranges are projected on the years around the evaluated day before their offsets are applied, and an offset (`Jan 1 -1 day`, `Dec 31 +Su`) moves a bound across the new year in either direction: every window of candidate years of MonthdayRange's filter and hint starts at the evaluated year - 1 or earlier and ends at the evaluated year + 1 or later")
+    import terms
+    n = 0
+    for nm in ("filter", "next_change_hint"):
+        fn = prog.impl_method_one("DateFilter", nm, self_adt="opening_hours_syntax::rules::day::MonthdayRange")
+        for bb, t in fn.calls():
+            cn = flow.call_name(t) or ""
+            if not (cn.endswith("::new") and "RangeInclusive" in cn and len(t["args"]) == 2):
+                continue
+            lo, hi = (flow.shape(fn, a, depth=5) for a in t["args"])
+            if "::year(p2)" not in lo:
+                continue
+            n += 1
+            try:
+                llo = terms.linear(terms.parse(lo))
+                lhi = terms.linear(terms.parse(hi)) if "::year(p2)" in hi else None
+            except terms.TermError:
+                llo = lhi = None
+            ylo = [k for k in (llo or {}) if k != 1]
+            ok_lo = llo is not None and len(ylo) == 1 and llo[ylo[0]] == 1 and llo.get(1, 0) <= -1
+            if "::year(p2)" in hi:
+                yhi = [k for k in (lhi or {}) if k != 1]
+                ok_hi = lhi is not None and len(yhi) == 1 and lhi[yhi[0]] == 1 and lhi.get(1, 0) >= 1
+            else:
+                ok_hi = "DATE_END" in hi  # up to the end of the supported range
+            r13.check(ok_lo and ok_hi, {"fn": nm, "years": "%s ..= %s" % (lo, hi)}, "C01.R13:%s:window" % nm,
+                      "MonthdayRange::%s projects a dated range on the years %s ..= %s only: a bound that its offset moves across the new year (`Jan 1 -1 day` on Dec 31, `Dec 31 +1 day` on Jan 1) belongs to a year outside the window and is lost" % (nm, lo, hi), lib.where_of(fn, t))
+    r13.floor(6)
